@@ -139,6 +139,7 @@ impl Write for SimDest {
             }
         };
         if res.is_ok() && accept > 0 {
+            kernel_do(|k| k.account_transfer(accept as u64));
             if self.pos < self.origin {
                 // outside the recorded window (possible only when the window does not begin at 0)
                 self.below_origin.push((self.pos, accept as u64));
